@@ -232,7 +232,7 @@ class Run:
         quirks = {k: v for k, v in cl.items() if k.startswith('quirk_')}
         if cl.get('rv0') is not None:
             quirks['rv'] = cl['rv0']      # where the cluster's resource versions start (a history may cross a power of ten)
-        self.sim = Sim(resources=resources, seed=scenario.get('seed', 0), **quirks)
+        self.sim = Sim(resources=resources, seed=scenario.get('seed', 0), namespaces=tuple(cl.get('namespaces') or ('default',)), **quirks)
         self.cluster = self.sim.cluster
         wl = cl.get('watch_latency')
         if wl:
